@@ -117,7 +117,6 @@ BufrAF  *bufr_duplicate_af( const BufrAF *dup )
    for (i = 0; i < dup->count ; i++)
       blens[i] = dup->fields[i].len;
 
-   af = (BufrAF *)malloc(sizeof(BufrAF));
    af = bufr_create_af( blens, dup->count );
    bufr_copy_af( af, dup );
    return af;
